@@ -37,7 +37,7 @@ ENGINES = ["harness", "canon", "corpus"]
 ASSUMPTIONS = ["path A's GreedyRewritePatternApplier is constructed with dce_enabled=False so that both drivers have the same configuration (the shipped pass body is executed otherwise)",
                "pairs on which either path raises (pdl_interp ops without interpreter implementation: erase, get_attribute_type, get_value_type of a range; asserts in PDLMatcher for ranges / non-integer typed attributes) are not comparable and only counted",
                "more than 10000 pattern invocations on a <= 50-op payload means the path diverges",
-               "single-pattern modules only (path B applies every recorded match of a root, path A the first pattern that acts)"]
+               "one pattern per module, or two patterns with different root op names (path B applies every recorded match of a root, path A the first pattern that acts: they coincide only when an op is a root candidate of one pattern)"]
 JOB_TIMEOUT = {"quick": 900, "thorough": 5400}
 
 LIMIT = 10000
@@ -164,15 +164,36 @@ def work_gen(T: Tally, job):
             T.c("patterns_with_defining_op_chain")
         rw = spec["rewrite"][-1]
         T.c("rewrite_kind:" + ("erase" if rw["k"] == "erase" else "replace_with_op" if rw["with_op"] else "replace_with_values"))
-        T.s("root_names", next(s for s in spec["match"] if s["id"] == spec["root"])["name"])
+        if rw["op"] != spec["root"]:
+            T.c("patterns_replacing_a_non_root_op")
+        rname = next(s for s in spec["match"] if s["id"] == spec["root"])["name"]
+        T.s("root_names", str(rname))
+        if rname is None:
+            T.c("patterns_with_unnamed_root")
+        spec2 = None
+        if rname is not None and rng.random() < 0.12:
+            # second pattern with a DIFFERENT root name in the same module: one compiled matcher holds both; an op is a
+            # root candidate of at most one of them, so first-match (path A) and all-matches (path B) coincide
+            for _ in range(6):
+                cand = G.gen_spec(rng)
+                n2 = next(s for s in cand["match"] if s["id"] == cand["root"])["name"]
+                if n2 is not None and n2 != rname and verified(G.render(cand)):
+                    spec2 = cand
+                    break
         for attempt in range(5):
             pay, plan_ = G.gen_payload(rng, spec, exact_only=attempt == 4)
+            if spec2 is not None:
+                pay2, plan2 = G.gen_payload(rng, spec2, exact_only=attempt == 4, in_func=False, prefix="pw")
+                pay, plan_ = pay + pay2, plan_ + plan2
             if verified(pay):
                 break
             T.c("payload_regenerated_unverifiable")
         else:
             T.c("payload_dropped_unverifiable")
             continue
+        if spec2 is not None:
+            T.c("two_pattern_modules")
+            pt = pt + G.render(spec2)
         run_pair(T, pt, pay, plan_, "generated")
 
 
